@@ -77,7 +77,37 @@ class C02(Spec):
         return lattice_units('checks/c02.cpp', shards=sh)
 
 
-_SPECS = {'C02': C02}
+class C01(Spec):
+    design_ref = 'DESIGN.md 4/C01'
+    level_text = ('all pairs of the reduced element lattice (both quaternion hemispheres, angles 0..pi, linear parts 0..1e6), all element x point cells and all triples of a '
+                  '6-element sub-lattice are composed / inverted / applied by the real code and compared with products, LU inverses and matrix-vector products of the '
+                  'documented embedding, evaluated in extended precision')
+    rule = ('cells: every element X of the reduced lattice (unary: inverse, two-sided inverse, neutral identity, transform), X x 5 points (act), X x Y pairs '
+            '(compose, operator*), triples (associativity); non-trivial = both rotation angles non-zero; distinct = distinct atom-key tuples')
+    explanation = 'explicit enumeration of element pairs/triples on the real code; oracle = matrix product / LU inverse of the documented embedding in long double'
+    assumptions = COMMON_ASSUMPTIONS
+
+    def units(self, tier):
+        sh = (lambda g, s: 8 if 'SGal3' in g else (4 if g in ('SE_2_3', 'SE3') else 1)) if tier == 'thorough' else (lambda g, s: 2 if 'SGal3' in g else 1)
+        return lattice_units('checks/c01.cpp', shards=sh)
+
+
+class C03(Spec):
+    design_ref = 'DESIGN.md 4/C03'
+    level_text = ('every element of the full lattice built three ways (reference-built coefficient vectors in both quaternion hemispheres, manif exp of every lattice tangent '
+                  'below pi, manif composition chains reaching angle 2pi-delta with w<0) has its log checked for finiteness, principal range, expm(hat(log X)) = M(X), '
+                  'agreement with an independent Newton matrix logarithm and hemisphere independence')
+    rule = ('cells: (A) full element lattice x {w>=0, w<0}; (B) every lattice tangent with rotation < pi (round trip); (C) composition chains exp(pi u)exp((pi-d)u), '
+            'cubes of exp((2pi-d)/3 u) for 7 deltas per base tangent; non-trivial = rotation angle non-zero; distinct = atom keys')
+    explanation = 'explicit enumeration of the element lattice on the real code; oracle = extended-precision expm and Newton matrix logarithm'
+    assumptions = COMMON_ASSUMPTIONS
+
+    def units(self, tier):
+        sh = (lambda g, s: 8 if 'SGal3' in g else (4 if g in ('SE_2_3', 'SE3') else 1)) if tier == 'thorough' else (lambda g, s: 4 if 'SGal3' in g else (2 if g in ('SE_2_3', 'SE3') else 1))
+        return lattice_units('checks/c03.cpp', shards=sh)
+
+
+_SPECS = {'C01': C01, 'C02': C02, 'C03': C03}
 
 
 def get(prop):
